@@ -92,6 +92,8 @@ class Spec:
         return c
 
     def pred(self, name: str, params: list[tuple[str, ty.T]], body: str):
+        if name in self.preds and self.preds[name].body != body:
+            raise ValueError(f"specification predicate {name} is defined twice with different bodies")
         self.preds[name] = Pred(name, params, body)
 
     def measure(self, name: str, cls: str, var: str, expr: str, t: ty.T = ty.REAL):
